@@ -85,6 +85,19 @@ def cases(tier, seed):
                                                 if plane > 0:
                                                     c["seed"] = int(seed)
                                             out.append(c)
+    # ---- limits-only plane: no parameter of the integrand is differentiable (frozen / plain tensors), only the
+    # limits are; every combination of limit forms with at least one tensor limit that requires grad
+    for n in ([3, 7] if tier == "quick" else [1, 2, 3, 7, 33]):
+        for fl in LIMIT_FORMS:
+            for fu in LIMIT_FORMS:
+                if "tg" not in (fl, fu):
+                    continue
+                infinite = fl in ("inf", "tinf") or fu in ("inf", "tinf")
+                for fam in (INF_FAMILIES if infinite else FIN_FAMILIES):
+                    for kind in ("pure", "nn", "edit"):
+                        for order, loss in ((1, "lin"), (2, "lin"), (2, "sq")):
+                            out.append({"family": fam, "n": n, "nb": None, "xl_form": fl, "xu_form": fu, "kind": kind,
+                                        "extra": False, "order": order, "loss": loss, "pgrad": 0})
     return out
 
 
@@ -255,8 +268,146 @@ def _zero_or_none(g):
     return g is None or (isinstance(g, torch.Tensor) and bool(torch.all(g == 0)))
 
 
+class _Anti(torch.autograd.Function):
+    """harness-side antiderivative surrogate of one output tensor: value 0, derivative f_k(x) (evaluated with autograd
+    enabled, so it can be differentiated again)"""
+
+    @staticmethod
+    def forward(ctx, x, fk):
+        ctx.fk = fk
+        ctx.save_for_backward(x)
+        with torch.no_grad():
+            return torch.zeros_like(fk(x))
+
+    @staticmethod
+    def backward(ctx, g):
+        x, = ctx.saved_tensors
+        with torch.enable_grad():
+            return (g * ctx.fk(x)).sum(), None
+
+
+def _run_limits_only(cfg):
+    """only the limits are differentiable: Leibniz rule to first and second order (reference: the returned value
+    plus an antiderivative surrogate whose derivative is the integrand itself)"""
+    from xitorch.integrate import quad
+    fam_name, n = cfg["family"], cfg["n"]
+    fl, fu, kind, order, loss = cfg["xl_form"], cfg["xu_form"], cfg["kind"], cfg["order"], cfg["loss"]
+    eps = qc.eps_of("float64")
+    xlv = -qc.INF if fl in ("inf", "tinf") else XL_FIN
+    xuv = qc.INF if fu in ("inf", "tinf") else XU_FIN
+    fam = Family(fam_name, n, XL_FIN, XU_FIN, 0, 0)
+    if kind == "nn":
+        P = [torch.nn.Parameter(p.clone(), requires_grad=False) for p in fam.pvals]
+    else:
+        P = [p.clone() for p in fam.pvals]
+    log = []
+
+    def spy(x, Pargs):
+        log.append(qc.xval(x))
+        return fam(x, *Pargs)
+    fcn, params = _build(kind, fam, P, False, None, spy)
+    xl, xu = _limit(fl, xlv), _limit(fu, xuv)
+    viol, obs, nexec = [], {}, 1
+    o = call(quad, fcn, xl, xu, params=params, method="leggauss", n=n)
+    if o.exc is not None:
+        return {"viol": [V("exception:" + _sig(o.exc), {"phase": "forward"}, phase="forward")],
+                "obs": {"exc": _sig(o.exc)}, "status": "exception", "n": nexec}
+    ys = list(o.value) if fam.is_tuple else [o.value]
+
+    def objective(vals):
+        if loss == "lin":
+            return sum((v * yy).sum() for v, yy in zip(fam.cot, vals))
+        return sum((v * yy * yy).sum() for v, yy in zip(fam.cot, vals))
+    L = objective(ys)
+    lims = [(lab, t) for lab, t, f in (("xl", xl, fl), ("xu", xu, fu)) if f == "tg"]
+    tens = [t for _, t in lims]
+    if not L.requires_grad:
+        return {"viol": [V("result-not-differentiable", {"phase": "forward"}, phase="forward")], "obs": obs,
+                "status": "violation", "n": nexec}
+    o1 = call(torch.autograd.grad, L, tens, create_graph=(order == 2), allow_unused=True)
+    nexec += 1
+    if o1.exc is not None:
+        return {"viol": [V("exception:" + _sig(o1.exc), {"phase": "backward1"}, phase="backward1")],
+                "obs": {"exc": _sig(o1.exc)}, "status": "exception", "n": nexec}
+    g1 = list(o1.value)
+    # reference
+    xr = {lab: t.detach().clone().requires_grad_() for lab, t in lims}
+    nout = len(ys)
+
+    def fk(k):
+        def f(x):
+            y = fam(x, *P)
+            return (list(y) if fam.is_tuple else [y])[k]
+        return f
+    ysur = []
+    for k in range(nout):
+        val = ys[k].detach()
+        if "xu" in xr:
+            val = val + _Anti.apply(xr["xu"], fk(k))
+        if "xl" in xr:
+            val = val - _Anti.apply(xr["xl"], fk(k))
+        ysur.append(val)
+    Lr = objective(ysur)
+    rt = [xr[lab] for lab, _ in lims]
+    g1r = list(torch.autograd.grad(Lr, rt, create_graph=(order == 2), allow_unused=True))
+    mag = 1.0 + max(float(fam.phi_abs(t.detach(), P, [c.abs() for c in fam.cot])) for _, t in lims)
+    ymax = max(1.0, max(float(yy.detach().abs().max()) for yy in ys))
+    tol1 = 64.0 * eps * mag * (2.0 * ymax if loss == "sq" else 1.0)
+    worst = 0.0
+    for (lab, _), g, r in zip(lims, g1, g1r):
+        gv = torch.zeros(()) if g is None else g.detach()
+        rv = torch.zeros(()) if r is None else r.detach()
+        if tuple(gv.shape) != tuple(rv.shape):
+            viol.append(V("grad-shape:%s:order1" % lab, {"seen": list(gv.shape), "expected": list(rv.shape)}, wrt=lab))
+            continue
+        e = float((gv - rv).abs().max())
+        worst = max(worst, e / tol1)
+        if not e <= tol1:
+            viol.append(V("grad-mismatch:%s:order1" % lab, {"observed": rnd(gv, 12), "reference": rnd(rv, 12), "tol": tol1,
+                                                            "limits_only": True}, wrt=lab))
+    obs["r1"] = rnd(worst, 2)
+    if order == 2 and not viol:
+        S = None
+        Sr = None
+        for k, (g, r) in enumerate(zip(g1, g1r)):
+            w = math.cos(1.3 * k + 0.4)
+            if g is not None and g.requires_grad:
+                S = w * g.sum() if S is None else S + w * g.sum()
+            if r is not None and r.requires_grad:
+                Sr = w * r.sum() if Sr is None else Sr + w * r.sum()
+        if S is None and Sr is not None:
+            viol.append(V("first-order-gradient-not-differentiable", {"limits_only": True}, phase="backward1"))
+        elif S is not None:
+            o2 = call(torch.autograd.grad, S, tens, allow_unused=True)
+            nexec += 1
+            if o2.exc is not None:
+                viol.append(V("exception:" + _sig(o2.exc), {"phase": "backward2"}, phase="backward2"))
+            else:
+                g2r = list(torch.autograd.grad(Sr, rt, allow_unused=True)) if Sr is not None else [None] * len(rt)
+                # derivative magnitude of the integrand at the limits
+                dm = 0.0
+                for _, t in lims:
+                    xd = t.detach().clone().requires_grad_()
+                    dv, = torch.autograd.grad(fam.phi(xd, P, [c.abs() for c in fam.cot]), xd, allow_unused=True)
+                    dm = max(dm, 0.0 if dv is None else float(dv.abs()))
+                tol2 = 256.0 * eps * (mag * mag + dm * ymax + mag + dm + 1.0) * 2.0
+                w2 = 0.0
+                for (lab, _), g, r in zip(lims, o2.value, g2r):
+                    gv = torch.zeros(()) if g is None else g.detach()
+                    rv = torch.zeros(()) if r is None else r.detach()
+                    e = float((gv - rv).abs().max())
+                    w2 = max(w2, e / tol2)
+                    if not e <= tol2:
+                        viol.append(V("grad-mismatch:%s:order2" % lab, {"observed": rnd(gv, 12), "reference": rnd(rv, 12),
+                                                                        "tol": tol2, "limits_only": True}, wrt=lab))
+                obs["r2"] = rnd(w2, 2)
+    return {"viol": viol, "obs": obs, "status": "violation" if viol else "ok", "n": nexec}
+
+
 def run_case(cfg):
     from xitorch.integrate import quad
+    if cfg.get("pgrad") == 0:
+        return _run_limits_only(cfg)
     fam_name, n, nb = cfg["family"], cfg["n"], cfg["nb"]
     fl, fu, kind, extra, order = cfg["xl_form"], cfg["xu_form"], cfg["kind"], cfg["extra"], cfg["order"]
     plane, seed, orient = cfg.get("plane", 0), cfg.get("seed", 0), cfg.get("orient", "fwd")
